@@ -58,7 +58,12 @@ func c09Session(c *Ctx, nSenders, perSender int, pacing string, procs int) {
 	desc := fmt.Sprintf("send session senders=%d lines=%d pacing=%s", nSenders, perSender, pacing)
 	rp := map[string]interface{}{"op": "send-session", "senders": nSenders, "lines_each": perSender, "pacing": pacing}
 	c.Journal(desc)
-	sess, err := newSession(nil, nil)
+	// Config.Timeout is documented as the dial / ping timeout, 0 meaning "wait indefinitely"; it must have no bearing on
+	// whether a line handed to a connected client is written: sessions run with 0, 1 ms and the default
+	tmo := []time.Duration{5 * time.Second, 0, time.Millisecond, 60 * time.Second}[(nSenders+perSender+int(c.Seed))%4]
+	desc += fmt.Sprintf(" timeout=%v", tmo)
+	rp["timeout_ns"] = int64(tmo)
+	sess, err := newSession(func(cfg *client.Config) { cfg.Timeout = tmo }, nil)
 	if err != nil {
 		c.Res.Inconclusive++
 		return
